@@ -65,6 +65,44 @@ impl HVal {
     }
 }
 
+impl HVal {
+    /// Like Display but never truncates binaries.
+    pub fn full(&self) -> String {
+        match self {
+            HVal::Bin(b) => {
+                let mut s = String::from("0x");
+                for x in b {
+                    s.push_str(&format!("{x:02x}"));
+                }
+                s
+            }
+            HVal::Tuple(name, fields) => {
+                let mut s = String::new();
+                if let Some(n) = name {
+                    s.push_str(n);
+                    if fields.is_empty() {
+                        return s;
+                    }
+                }
+                s.push('[');
+                for (i, (l, v)) in fields.iter().enumerate() {
+                    if i > 0 {
+                        s.push_str(", ");
+                    }
+                    if let Some(l) = l {
+                        s.push_str(l);
+                        s.push_str(": ");
+                    }
+                    s.push_str(&v.full());
+                }
+                s.push(']');
+                s
+            }
+            other => other.to_string(),
+        }
+    }
+}
+
 impl std::fmt::Display for HVal {
     fn fmt(&self, f: &mut std::fmt::Formatter<'_>) -> std::fmt::Result {
         match self {
